@@ -1637,7 +1637,9 @@ class zip(Stream):
         inp = list(tup)[::-1]
         out = []
         for i, val in self.literals:
-            while len(out) < i:
+            # (fewer inputs than at construction, after a disconnect: the
+            # literal follows what is left)
+            while len(out) < i and inp:
                 out.append(inp.pop())
             out.append(val)
 
